@@ -6,7 +6,10 @@ Local Open Scope N_scope.
 
 (* input: the data type and the list of elements handed to its ArrayWriter
    (elements as compact literals); c_legal_other: for the TOther types the
-   generator's statement that the list is within that type's alphabet.
+   generator's statement that the list is within that type's alphabet;
+   c_docs: every non-empty element read back is a JSON document according to
+   encoding/json.Valid (foreach binds jsonl elements as json-typed variables,
+   which murex refuses for other text).
    observation: ArrayWriter error, the ReadArray callback sequence and its
    error, and the values `foreach e { out "[$e]" }` printed. *)
 Record obs := {
@@ -16,10 +19,14 @@ Record obs := {
   o_typed : bool;               (* ReadArrayWithType delivered the same sequence *)
   o_each : list (list chunk)    (* elements the foreach body was run with, in order *)
 }.
-Record case := { c_ty : ty; c_in : list (list chunk); c_legal_other : bool; c_obs : obs }.
+Record case := { c_ty : ty; c_in : list (list chunk); c_legal_other : bool; c_docs : bool; c_obs : obs }.
 
 Definition elems_eqb : list bytes -> list bytes -> bool := list_eqb bytes_eqb.
 Definition is_nil {A} (l : list A) : bool := match l with [] => true | _ => false end.
+
+(* foreach over jsonl needs JSON documents as elements *)
+Definition each_applies (c : case) : bool :=
+  match c_ty c with TJsonl => c_docs c | _ => true end.
 
 (* correspondence: where the model covers the type, it predicts the callback
    sequence, both error flags and the foreach runs *)
@@ -30,7 +37,7 @@ Definition agree (c : case) : bool :=
   | Some (d, we, re) =>
     Bool.eqb we (o_werr (c_obs c)) && Bool.eqb re (o_rerr (c_obs c)) &&
     elems_eqb d (map expand (o_read (c_obs c))) && o_typed (c_obs c) &&
-    elems_eqb (foreach_bound d) (map expand (o_each (c_obs c)))
+    (if each_applies c then elems_eqb (foreach_seen d) (map expand (o_each (c_obs c))) else true)
   end.
 
 (* ---- the property's per-type legal alphabets ---- *)
@@ -48,7 +55,7 @@ Definition legal_elem (t : ty) (x : bytes) : bool :=
   match t with
   | TStr | TJsonl => no_newline x && short_enough x && no_space_endsb x
   | TGeneric => no_newline x && short_enough x && tab_free x && no_trailing_cr x
-  | TJson => valid_utf8 x
+  | TJson => valid_utf8 x && no_newline x && no_trailing_cr x
   | TOther _ => true
   end.
 Definition legal (c : case) : bool :=
@@ -69,7 +76,8 @@ Definition spec_ok (c : case) : bool :=
     (negb (o_werr ob) || (match c_ty c with TJson => is_nil xs | _ => false end)) &&
     negb (o_rerr ob) &&
     elems_eqb (map expand (o_read ob)) xs && o_typed ob &&
-    elems_eqb (map expand (o_each ob)) xs
+    (* the foreach body prints the bound value as text: compared for UTF-8 text *)
+    (if forallb valid_utf8 xs && each_applies c then elems_eqb (map expand (o_each ob)) xs else true)
   else true.
 
 (* known findings:
@@ -84,6 +92,6 @@ Definition classify (c : case) : N :=
   | TOther 4 => 2
   | _ =>
     if existsb is_nil xs && negb (o_rerr ob) && elems_eqb (map expand (o_read ob)) xs && o_typed ob &&
-       elems_eqb (map expand (o_each ob)) (foreach_bound xs)
+       forallb valid_utf8 xs && each_applies c && elems_eqb (map expand (o_each ob)) (foreach_bound xs)
     then 1 else 0
   end.
